@@ -6458,6 +6458,11 @@ static int32_t parseSingleResponse(uint32_t len, const unsigned char **cp,
         psTraceCrypto("ASN getSerialNum failed\n");
         return PS_PARSE_FAIL;
     }
+    if (glen > 0x7FFF)
+    {
+        /* The lengths are kept in (signed) short members. */
+        return PS_PARSE_FAIL;
+    }
     res->certIdSerialLen = glen;
     res->certIdSerial = p;
     p += glen;
@@ -6518,7 +6523,7 @@ static int32_t parseSingleResponse(uint32_t len, const unsigned char **cp,
     }
     p++;
     if (getAsnLength(&p, (uint32) (end - p), &glen) < 0 ||
-        (uint32) (end - p) < glen)
+        (uint32) (end - p) < glen || glen > 0x7FFF)
     {
         return PS_PARSE_FAIL;
     }
@@ -6534,7 +6539,7 @@ static int32_t parseSingleResponse(uint32_t len, const unsigned char **cp,
     {
         p++;
         if (getAsnLength(&p, (uint32) (end - p), &glen) < 0 ||
-            (uint32) (end - p) < glen)
+            (uint32) (end - p) < glen || glen > 0x7FFF)
         {
             return PS_PARSE_FAIL;
         }
@@ -6704,7 +6709,7 @@ static int32_t ocspParseBasicResponse(psPool_t *pool, uint32_t len,
     }
     p++;
     if (getAsnLength(&p, (uint32) (end - p), &glen) < 0 ||
-        (uint32) (end - p) < glen)
+        (uint32) (end - p) < glen || glen > 0x7FFF)
     {
         psTraceCrypto("Malformed producedAt in ResponseData\n");
         return PS_PARSE_FAIL;
